@@ -97,6 +97,8 @@ func classifyRoundTrip(o pobs, got json.RawMessage, handlers int) string {
 		return "json_path_parameter_not_escaped_by_client"
 	case c.Loc == "path" && c.Kind == "json" && (o.fw == "gin" || o.fw == "fiber" || o.fw == "iris"):
 		return "json_path_parameter/" + o.fw
+	case c.Loc == "path" && o.fw == "fiber" && strings.Contains(c.Name, "-") && handlers == 0:
+		return "fiber_path_parameter_name_with_dash_not_routed"
 	case c.Loc == "path" && strings.Contains(atoms, "/") && handlers == 0 && (o.fw == "gin" || o.fw == "gorilla" || o.fw == "iris"):
 		return "path_slash_not_routed/" + o.fw
 	case c.Loc == "header" && o.fw == "fiber" && handlers == 1 && edgeSpace(o.val):
@@ -159,6 +161,10 @@ func runC04(r *Report, rng *rand.Rand, thorough bool) {
 			r.Dist["class="+o.val.Class]++
 		}
 		if o.res.Err != "" {
+			if o.fw == "stdhttp" && strings.Contains(o.res.Err, "bad wildcard name") {
+				r.Violate("stdhttp_path_parameter_name_not_a_go_identifier", fmt.Sprintf("std-http %s: %s", o.cell.key(), o.res.Err), replay)
+				continue
+			}
 			r.Violate("client_error:"+o.cell.key(), fmt.Sprintf("%s %s: %s", o.fw, o.cell.key(), o.res.Err), replay)
 			continue
 		}
@@ -207,8 +213,76 @@ func runC04(r *Report, rng *rand.Rand, thorough bool) {
 			r.Violate(sig, fmt.Sprintf("%s %s: supplied %s, handler calls %d, received %s (status %d, wire %s ? %s)", o.fw, o.cell.key(), supplied, len(handlers), string(got), o.res.Status, wirePath(o.res), wireQuery(o.res)), replay)
 		}
 	}
+	// ---- several path variables in one operation, declared out of path order: each value under its own name
+	{
+		var scenarios []map[string]any
+		type mm struct {
+			fw   string
+			vals map[string]string
+		}
+		ms := map[string]mm{}
+		for _, fw := range Frameworks {
+			name := paramPkgName(fw, "path")
+			st := lab.Status[name]
+			if st == nil || !st.OK {
+				continue
+			}
+			names := builderParamNames(st.Code, "NewPathmultiRequest")
+			if len(names) != 3 {
+				r.Violate("client_builder_signature", fmt.Sprintf("%s: NewPathmultiRequest has path arguments %v", name, names), nil)
+				continue
+			}
+			for k := 0; k < 3; k++ {
+				vals := map[string]string{}
+				var args []json.RawMessage
+				for _, n := range names {
+					v := strClasses["alnum"][rng.Intn(len(strClasses["alnum"]))] + fmt.Sprint(rng.Intn(1000))
+					vals[n] = v
+					b, _ := json.Marshal(v)
+					args = append(args, b)
+				}
+				id := fmt.Sprintf("%s/pathmulti/%d", name, k)
+				scenarios = append(scenarios, map[string]any{"id": id, "pkg": name, "opts": map[string]any{"short_circuit": -1, "strict_short_circuit": -1},
+					"client": map[string]any{"fn": "NewPathmultiRequest", "args": args, "then_serve": true}})
+				ms[id] = mm{fw, vals}
+			}
+		}
+		results, err := lab.Run(scenarios)
+		if err != nil {
+			r.Violate("lab_run_failed", err.Error(), nil)
+		}
+		for _, sc := range scenarios {
+			id := sc["id"].(string)
+			res := results[id]
+			m := ms[id]
+			replay := map[string]any{"framework": m.fw, "scenario": sc, "supplied_by_name": m.vals}
+			r.Count("pathmulti/"+id+fmt.Sprint(m.vals), true)
+			r.Dist["several-path-variables"]++
+			if res == nil || res.Err != "" {
+				continue
+			}
+			var hs []LabEvent
+			for _, e := range res.Trace {
+				if e.Kind == "handler" {
+					hs = append(hs, e)
+				}
+			}
+			if len(hs) != 1 {
+				r.Violate("roundtrip/"+m.fw+"/path/several-variables", fmt.Sprintf("%s pathmulti: %d handler calls (status %d, path %s)", m.fw, len(hs), res.Status, wirePath(res)), replay)
+				continue
+			}
+			for n, v := range m.vals {
+				var got string
+				_ = json.Unmarshal(hs[0].Data[n], &got)
+				if got != v {
+					r.Violate("roundtrip/"+m.fw+"/path/several-variables", fmt.Sprintf("%s pathmulti: client argument %s = %q, handler received %s = %q (path %s)", m.fw, n, v, n, got, wirePath(res)), replay)
+					break
+				}
+			}
+		}
+	}
 	r.Exhaustive = true
-	r.Rule = "every cell of location x style (incl. defaulted) x explode (default/true/false) x shape (string, int32, int64, double, bool, date, date-time, uuid, array of int, array of string, flat object; JSON-content parameters) x required/optional, for each of the 7 frameworks; per cell k values from a typed generator (integer extremes, strings over ASCII letters/digits, non-ASCII letters, space, URL-reserved punctuation, minus the style's own delimiters) plus the omitted-optional case; request built by the generated client builder, served by the generated server, arguments of the recording stub compared with the supplied ones; non-trivial = value outside plain alphanumerics"
+	r.Rule = "one operation with three path variables declared out of path order on both levels (client fills by position, server binds by name); every cell of location x style (incl. defaulted) x explode (default/true/false) x shape (string, int32, int64, double, bool, date, date-time, uuid, array of int, array of string, flat object; JSON-content parameters) x required/optional, for each of the 7 frameworks; per cell k values from a typed generator (integer extremes, strings over ASCII letters/digits, non-ASCII letters, space, URL-reserved punctuation, minus the style's own delimiters) plus the omitted-optional case; request built by the generated client builder, served by the generated server, arguments of the recording stub compared with the supplied ones; non-trivial = value outside plain alphanumerics"
 }
 
 func wirePath(r *LabResult) string {
